@@ -58,6 +58,10 @@ inline uint32_t &historyWord() {
   return w;
 }
 inline coloquinte::Circuit buildThroughHistory(const CircuitSpec &s, uint32_t word);
+inline bool &inPermutedBuild() {
+  static thread_local bool b = false;
+  return b;
+}
 
 struct CircuitSpec {
   int rowHeight = 1;
@@ -82,6 +86,17 @@ struct CircuitSpec {
     return buildFresh();
   }
   Circuit buildFresh() const {
+    if ((historyWord() >> 2) % 4 == 1 && rows.size() > 1 && !inPermutedBuild()) {
+      // presentation mode: the rows are handed to the circuit in another order
+      CircuitSpec p = *this;
+      uint32_t k = historyWord() >> 4;
+      if (k % 2) std::reverse(p.rows.begin(), p.rows.end());
+      else std::rotate(p.rows.begin(), p.rows.begin() + 1 + (k >> 1) % (p.rows.size() - 1), p.rows.end());
+      inPermutedBuild() = true;
+      Circuit c = p.buildFresh();
+      inPermutedBuild() = false;
+      return c;
+    }
     int n = cells.size();
     Circuit c(n);
     std::vector<int> w(n), h(n), x(n), y(n);
@@ -818,6 +833,7 @@ struct HistoryScope {
     uint32_t w = t.w.empty() ? 0 : t.w.back();
     historyWord() = w;
     if (w % 4 == 1) R.classify("build:through-object-history");
+    if ((w >> 2) % 4 == 1) R.classify("build:rows-in-another-order");
   }
   ~HistoryScope() { historyWord() = 0; }
 };
